@@ -89,6 +89,14 @@ def _one(args):
         out['problems'].append(('setup', err))
         return out
     path = battlecheck.write_battle(b, 'c14-%s-%s' % (game, version))
+    # replays are user files: their names carry clan tags in brackets, blanks, parentheses, non-ASCII letters, glob characters
+    import zlib
+    special = ['[KOTS] final (1)', 'sieg über*alles?', "it's {mine} & yours", '#1 100% ~x$HOME', 'бой 戦闘']
+    if zlib.crc32(('%s-%s' % (game, version)).encode()) % 3 == 0:
+        d0, f0 = os.path.split(path)
+        named = os.path.join(d0, '%s %d.%s' % (special[zlib.crc32(version.encode()) % len(special)], os.getpid(), f0.rsplit('.', 1)[-1]))
+        os.replace(path, named)
+        path = named
     # '@RAW-OK' / '@RAW-BAD' stand for a writable / an unwritable target of --raw_data_output
     raw_ok = path + '.raw'
     raw_bad = os.path.join(path + '.no-such-dir', 'raw.bin')
